@@ -1,19 +1,8 @@
 #![allow(dead_code)]
-mod alloc;
-mod gens;
-mod layout;
-mod model;
-mod mops;
-mod ops;
-mod props;
-mod req;
-mod runner;
-mod selftest;
-mod stream;
-mod util;
+use dalek_verif_harness::*;
 
 #[global_allocator]
-static GLOBAL: alloc::Recorder = alloc::Recorder;
+static GLOBAL: dalek_verif_harness::alloc::Recorder = dalek_verif_harness::alloc::Recorder;
 
 use props::Tier;
 use serde_json::{json, Value};
